@@ -266,7 +266,48 @@ fn copy_dir(from: &std::path::Path, to: &std::path::Path) -> std::io::Result<()>
     Ok(())
 }
 
+/// Meaningless lines in volume: comment-only, blank and whitespace-only lines by the hundred inside a macro
+/// body that is called tens of thousands of times, by the million between the lines of a program.
+fn meaningless_lines_in_volume(ctx: &Ctx) {
+    let filler = |k: usize| -> String {
+        let kinds = ["; note\n", "\n", "\t\n", "// note\n", "   \n", "/* note */\n", "\t; indented note\n", " \t // x\n"];
+        (0..k).map(|i| kinds[i % kinds.len()]).collect()
+    };
+    let mut jobs: Vec<(String, String, String)> = vec![];
+    let sets: Vec<(usize, usize)> = if ctx.tier == fw::Tier::Thorough { vec![(34_000, 130), (2_200, 2_000), (70_000, 130), (34_000, 300), (140_000, 40)] } else { vec![(34_000, 130), (2_200, 2_000)] };
+    for (calls, lines) in sets {
+        let plain = format!(".macro step\n\tdec @0\n.endm\n{}", "\tstep r16\n".repeat(calls));
+        let commented = format!(".macro step\n{}\tdec @0\n{}.endm\n{}", filler(lines / 2), filler(lines - lines / 2), "\tstep r16\n".repeat(calls));
+        jobs.push((format!("in-macro-body/{}-lines-x-{}-calls", lines, calls), plain, commented));
+    }
+    let n_top = ctx.tier.pick(1_200_000usize, 5_000_000usize);
+    let plain: String = (0..100).map(|i| format!("\tldi r16, {}\n", i)).collect();
+    let commented: String = (0..100).map(|i| format!("{}\tldi r16, {}\n", filler(n_top / 100), i)).collect();
+    jobs.push((format!("between-the-lines/{}-lines", n_top), plain, commented));
+    let plain = ".if 0\n\tnop\n.endif\n.macro never_called\n\tnop\n.endm\n\tinc r2\n".to_string();
+    let commented = format!(".if 0\n{}\tnop\n{}.endif\n.macro never_called\n{}\tnop\n.endm\n\tinc r2\n", filler(300_000), filler(300_000), filler(300_000));
+    jobs.push(("in-unassembled-text/900000-lines".to_string(), plain, commented));
+    fw::par_items(&jobs, |_, (name, plain, commented)| {
+        let a = fw::build_str(plain);
+        let b = fw::build_str(commented);
+        ctx.eval(1);
+        ctx.count("meaningless_lines_in_volume_builds", 1);
+        let same = match (&a, &b) {
+            (Outcome::Ok(x), Outcome::Ok(y)) => x.code == y.code && x.eeprom == y.eeprom && x.ram_filling == y.ram_filling && !x.code.is_empty(),
+            _ => false,
+        };
+        if !same {
+            ctx.violation(
+                format!("syntax/meaningless-lines-in-volume/{}", name.split('/').next().unwrap_or("")),
+                format!("{}: without them {}, with them {}", name, fw::clip(&format!("{:?}", a.brief()), 60), fw::clip(&format!("{:?}", b.brief()), 160)),
+                json!({"source": plain, "respelled": commented, "volume": name}),
+            );
+        }
+    });
+}
+
 pub fn run(ctx: &Ctx) -> i32 {
+    meaningless_lines_in_volume(ctx);
     let n = ctx.tier.pick(2_000u64, 500_000u64);
     let k = ctx.tier.pick(8u64, 16u64);
     fw::par_for(n, 16, |i| check(ctx, i, k));
